@@ -1013,17 +1013,17 @@ proof fn witness_st_part(ns: Seq<u8>, c_raw: Seq<u8>, code: Seq<char>)
 //@@ impl src/xlsx/mod.rs Xlsx
 #[verifier::loop_isolation(false)]
 #[verifier::allow_complex_invariants]
-//@@ fn src/xlsx/mod.rs Xlsx::read_styles props=C10 entry ret=r
+//@@ fn src/xlsx/mod.rs Xlsx::read_styles props=C10,C01 entry ret=r
 //@@ sig
     ensures
-        //# C10.read_styles_frame
+        //# C10,C01.read_styles_frame
         final(self).strings == old(self).strings && final(self).sheets == old(self).sheets && final(self).tables == old(self).tables
             && final(self).is_1904 == old(self).is_1904 && final(self).metadata == old(self).metadata
             && final(self).merged_regions == old(self).merged_regions && final(self).options == old(self).options
             && content(final(self).zip) == content(old(self).zip),
-        //# C10.absent_styles_part
+        //# C10,C01.absent_styles_part
         !has_part(content(old(self).zip), styles_path()) ==> r is Ok && final(self).formats == old(self).formats,
-        //# C10.xlsx_style_table
+        //# C10,C01.xlsx_style_table
         ({ let evs = part_events(content(old(self).zip), styles_path());
            has_part(content(old(self).zip), styles_path()) && evs is Some && st_part(evs->Some_0).ok ==>
                r is Ok && final(self).formats@ == old(self).formats@ + st_part(evs->Some_0).xfs }),
@@ -1035,11 +1035,11 @@ proof fn witness_st_part(ns: Seq<u8>, c_raw: Seq<u8>, code: Seq<char>)
 a.map_err(|e| -> (x: XlsxError) ensures x == \g<1>(e) { \g<1>(e) })?
 //@@ closure 1
     -> (res: bool) ensures
-        //# C10.xf_format_id_attribute
+        //# C10,C01.xf_format_id_attribute
         res == (a.key.0@ == b"numFmtId"@)
 //@@ closure 2
     -> (res: CellFormat) ensures
-        //# C10.xf_class_custom_else_builtin
+        //# C10,C01.xf_class_custom_else_builtin
         res == class_of_raw(number_formats@, cow_ref(&a.value)@)
 //@@ before /match number_formats\.get\(/
                                         proof { axiom_bytes_keyed_map(number_formats@, cow_ref(&a.value)); }
@@ -1056,7 +1056,7 @@ a.map_err(|e| -> (x: XlsxError) ensures x == \g<1>(e) { \g<1>(e) })?
         proof { assert(bk_is(number_formats@, st.fmts)); assert(f0 + st.xfs =~= f0); }
 //@@ loop 0
             invariant_except_break
-                //# C10.code_follows_the_schema_walk
+                //# C10,C01.code_follows_the_schema_walk
                 good ==> st_scan(ev, xml.pos() as int, st) == tot,
             invariant
                 xml.events() == ev,
@@ -1064,9 +1064,9 @@ a.map_err(|e| -> (x: XlsxError) ensures x == \g<1>(e) { \g<1>(e) })?
                     && self.is_1904 == old(self).is_1904 && self.metadata == old(self).metadata
                     && self.merged_regions == old(self).merged_regions && self.options == old(self).options,
                 good ==> st.ctx is Top,
-                //# C10.xf_classes_in_document_order_so_far
+                //# C10,C01.xf_classes_in_document_order_so_far
                 good ==> self.formats@ == f0 + st.xfs,
-                //# C10.custom_formats_registered_so_far
+                //# C10,C01.custom_formats_registered_so_far
                 good ==> bk_is(number_formats@, st.fmts),
             ensures
                 good ==> st.xfs == tot.xfs,
@@ -1096,11 +1096,11 @@ a.map_err(|e| -> (x: XlsxError) ensures x == \g<1>(e) { \g<1>(e) })?
                         self.strings == old(self).strings && self.sheets == old(self).sheets && self.tables == old(self).tables
                             && self.is_1904 == old(self).is_1904 && self.metadata == old(self).metadata
                             && self.merged_regions == old(self).merged_regions && self.options == old(self).options,
-                        //# C10.code_follows_the_schema_walk
+                        //# C10,C01.code_follows_the_schema_walk
                         good ==> st_scan(ev, xml.pos() as int, st) == tot,
-                        //# C10.xf_classes_in_document_order_so_far
+                        //# C10,C01.xf_classes_in_document_order_so_far
                         good ==> self.formats@ == f0 + st.xfs,
-                        //# C10.custom_formats_registered_so_far
+                        //# C10,C01.custom_formats_registered_so_far
                         good ==> bk_is(number_formats@, st.fmts),
                     ensures
                         good ==> st.ctx is Top,
@@ -1131,7 +1131,7 @@ a.map_err(|e| -> (x: XlsxError) ensures x == \g<1>(e) { \g<1>(e) })?
 //@@ loop 2 it
                                 invariant
                                     attrs_match(it.seq(), at),
-                                    //# C10.numfmt_id_and_code_from_attributes
+                                    //# C10,C01.numfmt_id_and_code_from_attributes
                                     good ==> nf_fold(at, it.index@ as int) is Some && nf_fold(at, it.index@ as int)->Some_0.id =~= id@
                                         && nf_fold(at, it.index@ as int)->Some_0.code =~= format@,
                                     good ==> forall|j: int| 0 <= j < it.index@ ==> (#[trigger] at[j]).ok,
@@ -1174,11 +1174,11 @@ a.map_err(|e| -> (x: XlsxError) ensures x == \g<1>(e) { \g<1>(e) })?
                         self.strings == old(self).strings && self.sheets == old(self).sheets && self.tables == old(self).tables
                             && self.is_1904 == old(self).is_1904 && self.metadata == old(self).metadata
                             && self.merged_regions == old(self).merged_regions && self.options == old(self).options,
-                        //# C10.code_follows_the_schema_walk
+                        //# C10,C01.code_follows_the_schema_walk
                         good ==> st_scan(ev, xml.pos() as int, st) == tot,
-                        //# C10.xf_classes_in_document_order_so_far
+                        //# C10,C01.xf_classes_in_document_order_so_far
                         good ==> self.formats@ == f0 + st.xfs,
-                        //# C10.custom_formats_registered_so_far
+                        //# C10,C01.custom_formats_registered_so_far
                         good ==> bk_is(number_formats@, st.fmts),
                     ensures
                         good ==> st.ctx is Top,
@@ -1211,23 +1211,23 @@ a.map_err(|e| -> (x: XlsxError) ensures x == \g<1>(e) { \g<1>(e) })?
                                 broadcast use lemma_ok_all;
                                 let key = k_numfmtid();
                                 let v = self.formats@[fb.len() as int];
-                                //# C10.xf_class_appended_in_document_order
+                                //# C10,C01.xf_class_appended_in_document_order
                                 assert(self.formats@ =~= fb.push(v));
                                 if good {
                                     assert(all_ok(at));
                                     if forall|j: int| 0 <= j < at.len() ==> !((#[trigger] at[j]).ok && at[j].key == key) {
                                         lemma_ok_key_idx_none(at, key, 0);
-                                        //# C10.xf_without_format_id_is_general
+                                        //# C10,C01.xf_without_format_id_is_general
                                         assert(v == CellFormat::Other);
                                     } else {
                                         let i0 = choose|i: int| 0 <= i < at.len() && (#[trigger] at[i]).ok && at[i].key == key
                                             && forall|j: int| 0 <= j < i ==> !((#[trigger] at[j]).ok && at[j].key == key);
                                         lemma_first_exists(at, key);
                                         lemma_ok_key_idx_first(at, key, 0, i0);
-                                        //# C10.xf_class_of_its_format_id
+                                        //# C10,C01.xf_class_of_its_format_id
                                         assert(v == class_of_raw(number_formats@, at[i0].raw));
                                     }
-                                    //# C10.xf_class_is_the_declared_one
+                                    //# C10,C01.xf_class_is_the_declared_one
                                     assert(v == xf_entry(ev[xpos], st2.fmts)->Some_0);
                                     assert((f0 + st2.xfs).push(v) =~= f0 + st2.xfs.push(v));
                                 }
